@@ -142,3 +142,13 @@ META["C20"] = {
     "note": "Specifications are the harness's own (c20/models_test.go); float32 stock arithmetic is compared with 1e-4 relative tolerance; the explicitly unimplemented ReverseFanSpeedDirection RPC is excluded.",
     "technique": "per-model stateful property testing (rapid) against executable specifications with random configurations",
 }
+META["C12"] = {
+    "text": ("Enumeration over all generated routers with generated traffic: the routers are discovered from the source tree at check time, every method of each service descriptor (taken from the protobuf "
+             "registry, so an unrouted RPC is seen as Unimplemented) is invoked through the service description's own handler with rapid-generated requests and response scripts played by fake client "
+             "connections; the named client must be called exactly once with the identical request, messages/status/header/trailer must pass through unaltered, unknown names give NotFound and touch "
+             "no client, a caller-side send failure cancels the forwarded request. The registry is tested as a rapid state machine against a map model (Add/Remove/Has/Get with scripted factory and "
+             "fallback, change callbacks), concurrent first Gets are forced through the router hook points and by goroutines, the default-name interceptors are run on random requests of every request "
+             "type, and a generator differential regenerates all routers and wrappers with the current protoc plugins from the in-binary descriptors and compares them with the checked-in files."),
+    "note": "Fake grpc.ClientConnInterface implementations stand in for real clients; generated files are compared per package by content modulo import-block layout; plugins are built from the current tree (no protoc needed).",
+    "technique": "exhaustive router x method enumeration with rapid-generated traffic + model-based registry testing + generator differential (translation check by regeneration)",
+}
